@@ -57,9 +57,11 @@ pub fn gen(seed: u64, tier: Tier) -> ScenarioSpec {
         rec.extras.unknown = gen_unknown(&mut rng, events_hint(&rec), 6);
     }
     let len = gen::approx_len(&rec);
+    let skip_hash = rng.chance(1, 2);
     let live = rng.chance(3, 10);
     let mut spec = gen::base_spec(P, if live { "S2" } else { "S1" }, seed, rec);
     spec.stream = gen::gen_stream(&mut rng, len, false);
+    spec.knobs.insert("skip_hash".into(), skip_hash as i64);
     if live {
         spec.api = Api::Incremental;
         if rng.chance(1, 2) {
@@ -118,6 +120,27 @@ pub fn run(spec: &ScenarioSpec, ctx: &mut Ctx) -> Result<(), Violation> {
     // and against the model directly
     let n = oracle::check_all_rows(&m, &game.frames).map_err(|f| fail_v(P, f))?;
     ctx.checks(n);
+    // the same file must also parse under the skip-frames option (finished files only): the jump to
+    // Game End has to honour the sizes the file declares, extras included
+    if m.end.is_some() {
+        let hash = spec.knob("skip_hash") != 0;
+        let edges = m.edges();
+        let mut ro = read_slp(&m.bytes, &spec.stream, &edges, OptsSpec { skip_frames: true, compute_hash: hash });
+        note_read(ctx, &mut ro);
+        let sk = expect_ok(P, "slippi::read(skip_frames)", ro.res)?;
+        // skip-frames promises start, end and metadata only (Gecko codes are jumped over)
+        for (what, a, b) in [
+            ("start", json_of(&sk.start), json_of(&twin.start)),
+            ("end", json_of(&sk.end), json_of(&twin.end)),
+            ("metadata", json_of(&sk.metadata), json_of(&twin.metadata)),
+        ] {
+            if a != b {
+                return Err(Violation::new(P, "field-mismatch", format!("skip-frames-with-extras-vs-without {}", what), format!("{} vs {}", crate::report::short(&a, 120), crate::report::short(&b, 120))));
+            }
+        }
+        ctx.probe("skip-frames read of a file with extras");
+        ctx.check();
+    }
     ctx.rep.nontrivial = n_unknown > 0 || trailing;
     Ok(())
 }
